@@ -292,11 +292,14 @@ Theorem add_all_no_fuel (pre : name) (res : list name) (a d : bool) calls i :
 Proof. apply no_fuel_gen, Bij_nil. Qed.
 
 (* ---- soundness of the renaming on every successful run ---- *)
+Lemma reserved_insert (s : tm) n q : reserved (insert s n q) = n :: reserved s.
+Proof. reflexivity. Qed.
+
 Lemma sound_gen : forall calls (s sf : tm) ms,
   Bij (tbl s) -> add_all s calls = AOk sf ms ->
   Bij (tbl sf) /\ incl (tbl s) (tbl sf) /\ List.length ms = List.length calls /\
   (forall c m, In (c, m) (combine calls ms) -> In (m, snd c) (tbl sf)) /\
-  reserved sf = reserved s /\
+  incl (reserved s) (reserved sf) /\
   (forall m, In m (map fst (tbl sf)) ->
      In m (map fst (tbl s)) \/ In m (map fst calls) \/ ~ In m (reserved s)).
 Proof.
@@ -314,37 +317,41 @@ Proof.
     inversion H; subst; clear H.
     + (* same name *)
       destruct (IH' sf ms' B eq_refl) as (B' & I & L & C & Rs & Fr).
-      repeat split; auto; try apply B'.
-      * cbn. now rewrite L.
+      split; [exact B'|]. split; [exact I|]. split; [cbn; now rewrite L|].
+      split; [|split; [exact Rs|]].
       * intros c m [Hc|Hc]; [inversion Hc; subst; cbn; now apply I|now apply C].
       * intros m Hm. destruct (Fr m Hm) as [?|[?|?]]; auto. right; left; now right.
     + (* renamed to the registered duplicate *)
       destruct (IH' sf ms' B eq_refl) as (B' & I & L & C & Rs & Fr).
-      repeat split; auto; try apply B'.
-      * cbn. now rewrite L.
+      split; [exact B'|]. split; [exact I|]. split; [cbn; now rewrite L|].
+      split; [|split; [exact Rs|]].
       * intros c m [Hc|Hc]; [inversion Hc; subst; cbn; now apply I|now apply C].
       * intros m Hm. destruct (Fr m Hm) as [?|[?|?]]; auto. right; left; now right.
     + (* renamed to a fresh name *)
       assert (B1 : Bij (tbl (insert s n q))) by (now apply Bij_snoc).
       destruct (IH' sf ms' B1 eq_refl) as (B' & I & L & C & Rs & Fr).
-      rewrite tbl_insert in I.
-      repeat split; auto; try apply B'.
-      * intros x Hx. apply I, in_app_iff. now left.
-      * cbn. now rewrite L.
+      rewrite tbl_insert in I. rewrite reserved_insert in Rs.
+      split; [exact B'|]. split; [intros x Hx; apply I, in_app_iff; now left|].
+      split; [cbn; now rewrite L|].
+      split; [|split; [intros x Hx; apply Rs; now right|]].
       * intros c m [Hc|Hc]; [|now apply C]. inversion Hc; subst; cbn. apply I, in_app_iff. right; now left.
-      * intros m Hm. destruct (Fr m Hm) as [Hm'|[?|?]]; auto; [|right; left; now right].
-        rewrite tbl_insert, map_app, in_app_iff in Hm'. destruct Hm' as [?|[<-|[]]]; auto.
+      * intros m Hm. destruct (Fr m Hm) as [Hm'|[?|Hr]].
+        -- rewrite tbl_insert, map_app, in_app_iff in Hm'. destruct Hm' as [?|[<-|[]]]; auto.
+        -- right; left; now right.
+        -- right; right. intro X. apply Hr. rewrite reserved_insert. now right.
     + (* registered under its own name *)
       assert (B1 : Bij (tbl (insert s fn q))) by (now apply Bij_snoc).
       destruct (IH' sf ms' B1 eq_refl) as (B' & I & L & C & Rs & Fr).
-      rewrite tbl_insert in I.
-      repeat split; auto; try apply B'.
-      * intros x Hx. apply I, in_app_iff. now left.
-      * cbn. now rewrite L.
+      rewrite tbl_insert in I. rewrite reserved_insert in Rs.
+      split; [exact B'|]. split; [intros x Hx; apply I, in_app_iff; now left|].
+      split; [cbn; now rewrite L|].
+      split; [|split; [intros x Hx; apply Rs; now right|]].
       * intros c m [Hc|Hc]; [|now apply C]. inversion Hc; subst; cbn. apply I, in_app_iff. right; now left.
-      * intros m Hm. destruct (Fr m Hm) as [Hm'|[?|?]]; auto; [|right; left; now right].
-        rewrite tbl_insert, map_app, in_app_iff in Hm'. destruct Hm' as [?|[<-|[]]]; auto.
-        right; left; now left.
+      * intros m Hm. destruct (Fr m Hm) as [Hm'|[?|Hr]].
+        -- rewrite tbl_insert, map_app, in_app_iff in Hm'. destruct Hm' as [?|[<-|[]]]; auto.
+           right; left; now left.
+        -- right; left; now right.
+        -- right; right. intro X. apply Hr. rewrite reserved_insert. now right.
 Qed.
 
 (* on success (any flags): the final table is a bijection and the final name of every call
@@ -364,11 +371,12 @@ Qed.
 
 (* names the user calls elsewhere (reserved) are never taken: given that no derive call is
    itself spelled with a reserved name (an identifier resolves to one object), no name in the
-   final table and no final call name is reserved, and the reserved set is unchanged *)
+   final table and no final call name is one of them (the reserved set itself only grows: every
+   registered name is recorded in it, for the benefit of the other plugins) *)
 Theorem rename_avoids_reserved (pre : name) (res : list name) (a d : bool) calls sf ms :
   Forall (fun c => ~ In (fst c) res) calls ->
   add_all (init pre res a d) calls = AOk sf ms ->
-  reserved sf = res /\
+  incl res (reserved sf) /\
   (forall m, In m (map fst (tbl sf)) -> ~ In m res) /\
   (forall m, In m ms -> ~ In m res).
 Proof.
@@ -426,68 +434,322 @@ Proof. apply needs_flag_gen; cbn; auto using Bij_nil. Qed.
 
 End OneMap.
 
-(* ---------- several plugins: the package run is the product of the per-plugin runs ---------- *)
+(* ---------- several plugins sharing one reserved set: the package-level theorems ---------- *)
 Section Pkg.
 Variable tys : Type.
-Variable teq : tys -> tys -> bool.
+Variable tys_eqb : tys -> tys -> bool.
+Hypothesis tys_eqb_spec : forall a b, reflect (a = b) (tys_eqb a b).
 Variable hint : tys -> string.
 Variable order : list (name * tys) -> list (name * tys).
+Hypothesis order_perm : forall t, Permutation (order t) t.
 
-Notation add_all := (add_all tys teq hint order).
-Notation add_pkg := (add_pkg tys teq hint order).
-Notation SetFuncName := (SetFuncName tys teq hint order).
+Notation tm := (tm tys).
+Notation add_pkg := (add_pkg tys tys_eqb hint order).
+Notation SetFuncName := (SetFuncName tys tys_eqb hint order).
+Notation new_name := (new_name tys hint).
 
 (* the calls addressed to plugin p, in order *)
 Definition proj (p : nat) (calls : list (nat * (name * tys))) : list (name * tys) :=
   map snd (filter (fun c => Nat.eqb (fst c) p) calls).
 
-Lemma add_pkg_ok : forall calls st st' ms,
-  add_pkg st calls = POk st' ms ->
-  forall p, exists msp, add_all (st p) (proj p calls) = AOk (st' p) msp.
+Definition perr (r : pres tys) : bool := match r with PErr _ _ => true | POk _ _ => false end.
+
+Lemma proj_cons_same p fn q r : proj p ((p, (fn, q)) :: r) = (fn, q) :: proj p r.
+Proof. unfold proj. cbn [filter fst]. now rewrite Nat.eqb_refl. Qed.
+
+Lemma proj_cons_other p p0 fn q r : p0 <> p -> proj p ((p0, (fn, q)) :: r) = proj p r.
+Proof. intro N. unfold proj. cbn [filter fst]. destruct (Nat.eqb_spec p0 p); [contradiction|reflexivity]. Qed.
+
+Lemma share_same (st : nat -> tm) p s' : share st p s' p = s'.
+Proof. unfold share. now rewrite Nat.eqb_refl. Qed.
+
+Lemma share_other (st : nat -> tm) p s' p' :
+  p' <> p -> share st p s' p' = set_reserved (st p') (reserved s').
+Proof. intro N. unfold share. destruct (Nat.eqb_spec p' p); [contradiction|reflexivity]. Qed.
+
+Definition PInv (st : nat -> tm) : Prop := forall p, Bij (tbl (st p)).
+Definition pflags (st : nat -> tm) (a d : bool) : Prop :=
+  forall p, autoname (st p) = a /\ dedup (st p) = d.
+
+Lemma share_inv st p s' : PInv st -> Bij (tbl s') -> PInv (share st p s').
 Proof.
-  induction calls as [|[p0 [fn q]] r IH]; intros st st' ms H p.
-  - cbn in H. inversion H; subst. exists []. reflexivity.
-  - cbn [TypesMap.add_pkg] in H.
-    destruct (SetFuncName (st p0) fn q) as [s' [m| | |]] eqn:R; try discriminate.
-    destruct (add_pkg (upd st p0 s') r) as [sf ms'|] eqn:E; [|discriminate].
-    inversion H; subst. destruct (IH _ _ _ E p) as [msp Hp].
-    unfold proj in *. cbn [filter fst].
-    destruct (Nat.eqb_spec p0 p) as [->|Hne].
-    + cbn [map snd TypesMap.add_all]. rewrite R.
-      unfold upd in Hp. rewrite Nat.eqb_refl in Hp. rewrite Hp. now exists (m :: msp).
-    + unfold upd in Hp. destruct (Nat.eqb_spec p p0); [congruence|]. now exists msp.
+  intros I B p'. destruct (Nat.eq_dec p' p) as [->|N].
+  - now rewrite share_same.
+  - rewrite (share_other _ _ _ _ N). apply I.
 Qed.
 
-Lemma add_pkg_err : forall calls st i e,
-  add_pkg st calls = PErr i e -> exists p j, add_all (st p) (proj p calls) = AErr j e.
+Lemma share_flags st p s' a d :
+  pflags st a d -> autoname s' = a -> dedup s' = d -> pflags (share st p s') a d.
 Proof.
-  induction calls as [|[p0 [fn q]] r IH]; intros st i e H.
-  - discriminate.
-  - cbn [TypesMap.add_pkg] in H.
-    destruct (SetFuncName (st p0) fn q) as [s' res] eqn:R.
-    assert (P0 : proj p0 ((p0, (fn, q)) :: r) = (fn, q) :: proj p0 r).
-    { unfold proj. cbn [filter fst]. now rewrite Nat.eqb_refl. }
-    destruct res as [m|f w|c|].
-    + destruct (add_pkg (upd st p0 s') r) as [sf ms'|j e'] eqn:E; [discriminate|].
-      inversion H; subst. destruct (IH _ _ _ E) as [p [k Hp]].
-      exists p. unfold upd in Hp. destruct (Nat.eqb_spec p p0) as [->|Hne].
-      * rewrite P0. cbn [TypesMap.add_all]. rewrite R, Hp. now exists (S k).
-      * exists k. unfold proj in *. cbn [filter fst].
-        destruct (Nat.eqb_spec p0 p); [congruence|]. exact Hp.
-    + inversion H; subst. exists p0, 0. rewrite P0. cbn [TypesMap.add_all]. now rewrite R.
-    + inversion H; subst. exists p0, 0. rewrite P0. cbn [TypesMap.add_all]. now rewrite R.
-    + inversion H; subst. exists p0, 0. rewrite P0. cbn [TypesMap.add_all]. now rewrite R.
+  intros F A D p'. destruct (Nat.eq_dec p' p) as [->|N].
+  - now rewrite share_same.
+  - rewrite (share_other _ _ _ _ N). apply F.
 Qed.
 
-(* the package is accepted iff every plugin's own call list is *)
-Theorem add_pkg_accepts_iff calls st :
-  (exists st' ms, add_pkg st calls = POk st' ms) <->
-  (forall p, exists sf ms, add_all (st p) (proj p calls) = AOk sf ms).
+(* everything plugin p will have seen: its table so far and its calls to come *)
+Definition seen (st : nat -> tm) (calls : list (nat * (name * tys))) (p : nat) : list (name * tys) :=
+  tbl (st p) ++ proj p calls.
+
+Lemma perr_cons_ok st p fn q r s' m :
+  SetFuncName (st p) fn q = (s', SOk m) ->
+  perr (add_pkg st ((p, (fn, q)) :: r)) = perr (add_pkg (share st p s') r).
+Proof. intro H. cbn [TypesMap.add_pkg]. rewrite H. now destruct (add_pkg (share st p s') r). Qed.
+
+(* after a successful step whose state is s' with tbl s' = tbl (st p0) or tbl (st p0) ++ [(n,q)],
+   what each plugin has seen only shrinks *)
+Lemma seen_step_incl st p0 fn q r s' n :
+  (tbl s' = tbl (st p0) \/ (tbl s' = tbl (st p0) ++ [(n, q)] /\ n = fn)) ->
+  forall p, incl (seen (share st p0 s') r p) (seen st ((p0, (fn, q)) :: r) p).
 Proof.
-  split.
-  - intros (st' & ms & H) p. destruct (add_pkg_ok _ _ _ _ H p) as [msp Hp]. eauto.
-  - intro All. destruct (add_pkg st calls) as [st' ms|i e] eqn:E; [eauto|].
-    destruct (add_pkg_err _ _ _ _ E) as (p & j & Hp). destruct (All p) as (sf & ms & Hok). congruence.
+  intros T p x Hx. unfold seen in *. destruct (Nat.eq_dec p p0) as [->|N].
+  - rewrite share_same in Hx. rewrite proj_cons_same.
+    destruct T as [T|[T ->]]; rewrite T in Hx.
+    + apply in_app_iff in Hx. apply in_app_iff. destruct Hx; [now left|right; now right].
+    + now rewrite snoc_app in Hx.
+  - rewrite (share_other _ _ _ _ N) in Hx. rewrite (proj_cons_other _ _ _ _ _ (not_eq_sym N)). exact Hx.
 Qed.
+
+Lemma pexact_gen : forall calls (st : nat -> tm) a d,
+  PInv st -> pflags st a d ->
+  (d = false \/ forall p, ~ has_dup (seen st calls p)) ->
+  (a = false \/ forall p, ~ has_conflict (seen st calls p)) ->
+  (perr (add_pkg st calls) = true <-> exists p, clash (seen st calls p)).
+Proof.
+  induction calls as [|[p0 [fn q]] r IH]; intros st a d I F HD HA.
+  - cbn. split; [discriminate|]. intros [p C]. unfold seen, proj in C. cbn in C.
+    rewrite app_nil_r in C. now destruct (Bij_no_clash _ _ (I p)).
+  - destruct (F p0) as [Fa Fd].
+    assert (Hin_call : In (fn, q) (seen st ((p0, (fn, q)) :: r) p0)).
+    { unfold seen. rewrite proj_cons_same. apply in_app_iff. right; now left. }
+    assert (Hin_tbl : forall x, In x (tbl (st p0)) -> In x (seen st ((p0, (fn, q)) :: r) p0)).
+    { intros x Hx. unfold seen. apply in_app_iff. now left. }
+    destruct (set_cases tys tys_eqb tys_eqb_spec hint order order_perm (st p0) fn q) as
+      [(f & Hf & [(E & R)|[(Ne & D & R)|(Ne & D & R)]])
+      |[(Hq & ts & Hts & Hne & [(A & R)|(A & n & Hn & F1 & F2 & R)])
+       |(Hq & Hfn & R)]].
+    + (* already registered under this name *)
+      subst f. rewrite (perr_cons_ok _ _ _ _ _ _ _ R).
+      pose proof (seen_step_incl st p0 fn q r (st p0) fn (or_introl eq_refl)) as Inc.
+      rewrite (IH _ a d); auto.
+      * split; intros [p C]; exists p.
+        -- eapply clash_incl; [apply Inc|exact C].
+        -- eapply clash_incl; [|exact C]. intros x Hx. unfold seen in *.
+           destruct (Nat.eq_dec p p0) as [->|N].
+           ++ rewrite share_same. rewrite proj_cons_same in Hx. apply in_app_iff in Hx. apply in_app_iff.
+              destruct Hx as [Hx|[Hx|Hx]]; [now left|subst; now left|now right].
+           ++ rewrite (share_other _ _ _ _ N). rewrite (proj_cons_other _ _ _ _ _ (not_eq_sym N)) in Hx. exact Hx.
+      * apply share_inv; auto.
+      * apply share_flags; auto.
+      * destruct HD as [HD|HD]; [now left|right]. intros p C. apply (HD p). eapply has_dup_incl; [apply Inc|exact C].
+      * destruct HA as [HA|HA]; [now left|right]. intros p C. apply (HA p). eapply has_conflict_incl; [apply Inc|exact C].
+    + exfalso. destruct HD as [HD|HD]; [congruence|]. apply (HD p0).
+      exists q, f, fn. repeat split; auto.
+    + cbn [TypesMap.add_pkg]. rewrite R. cbn. split; [intros _|reflexivity].
+      exists p0. right. exists q, f, fn. repeat split; auto.
+    + cbn [TypesMap.add_pkg]. rewrite R. cbn. split; [intros _|reflexivity].
+      exists p0. left. exists fn, ts, q. repeat split; auto.
+    + exfalso. destruct HA as [HA|HA]; [congruence|]. apply (HA p0).
+      exists fn, ts, q. repeat split; auto.
+    + (* fresh registration *)
+      rewrite (perr_cons_ok _ _ _ _ _ _ _ R).
+      assert (T : tbl (insert (st p0) fn q) = tbl (st p0) \/
+                  (tbl (insert (st p0) fn q) = tbl (st p0) ++ [(fn, q)] /\ fn = fn)) by (right; auto).
+      pose proof (seen_step_incl st p0 fn q r _ fn T) as Inc.
+      rewrite (IH _ a d); auto.
+      * split; intros [p C]; exists p.
+        -- eapply clash_incl; [apply Inc|exact C].
+        -- eapply clash_incl; [|exact C]. intros x Hx. unfold seen in *.
+           destruct (Nat.eq_dec p p0) as [->|N].
+           ++ rewrite share_same, tbl_insert, snoc_app. now rewrite proj_cons_same in Hx.
+           ++ rewrite (share_other _ _ _ _ N). rewrite (proj_cons_other _ _ _ _ _ (not_eq_sym N)) in Hx. exact Hx.
+      * apply share_inv; auto. now apply Bij_snoc.
+      * apply share_flags; auto.
+      * destruct HD as [HD|HD]; [now left|right]. intros p C. apply (HD p). eapply has_dup_incl; [apply Inc|exact C].
+      * destruct HA as [HA|HA]; [now left|right]. intros p C. apply (HA p). eapply has_conflict_incl; [apply Inc|exact C].
+Qed.
+
+Definition pinit (prefixes : nat -> name) (res : list name) (a d : bool) : nat -> tm :=
+  fun p => init (prefixes p) res a d.
+
+Lemma pinit_inv pre res a d : PInv (pinit pre res a d).
+Proof. intro p. apply Bij_nil. Qed.
+Lemma pinit_flags pre res a d : pflags (pinit pre res a d) a d.
+Proof. intro p. split; reflexivity. Qed.
+Lemma seen_pinit pre res a d calls p : seen (pinit pre res a d) calls p = proj p calls.
+Proof. reflexivity. Qed.
+
+Definition pkg_conflict calls := exists p, has_conflict (proj p calls).
+Definition pkg_dup calls := exists p, has_dup (proj p calls).
+
+Theorem pkg_noflag_exact pre res calls :
+  perr (add_pkg (pinit pre res false false) calls) = true <-> pkg_conflict calls \/ pkg_dup calls.
+Proof.
+  rewrite (pexact_gen calls _ false false); auto using pinit_inv, pinit_flags.
+  unfold pkg_conflict, pkg_dup, clash. split.
+  - intros [p [C|C]]; [left|right]; now exists p.
+  - intros [[p C]|[p C]]; exists p; [now left|now right].
+Qed.
+
+Theorem pkg_autoname_only_dups_fail pre res (a : bool) calls :
+  ~ pkg_conflict calls ->
+  (perr (add_pkg (pinit pre res a false) calls) = true <-> pkg_dup calls).
+Proof.
+  intro NC. rewrite (pexact_gen calls _ a false); auto using pinit_inv, pinit_flags.
+  - unfold pkg_dup, clash. split.
+    + intros [p [C|C]]; [destruct NC; now exists p|now exists p].
+    + intros [p C]. exists p. now right.
+  - right. intros p C. apply NC. now exists p.
+Qed.
+
+Theorem pkg_dedup_only_conflicts_fail pre res (d : bool) calls :
+  ~ pkg_dup calls ->
+  (perr (add_pkg (pinit pre res false d) calls) = true <-> pkg_conflict calls).
+Proof.
+  intro ND. rewrite (pexact_gen calls _ false d); auto using pinit_inv, pinit_flags.
+  - unfold pkg_conflict, clash. split.
+    + intros [p [C|C]]; [now exists p|destruct ND; now exists p].
+    + intros [p C]. exists p. now left.
+  - right. intros p C. apply ND. now exists p.
+Qed.
+
+Lemma pboth_gen : forall calls (st : nat -> tm),
+  PInv st -> pflags st true true -> perr (add_pkg st calls) = false.
+Proof.
+  induction calls as [|[p0 [fn q]] r IH]; intros st I F; [reflexivity|].
+  destruct (F p0) as [Fa Fd].
+  destruct (set_cases tys tys_eqb tys_eqb_spec hint order order_perm (st p0) fn q) as
+      [(f & Hf & [(E & R)|[(Ne & D & R)|(Ne & D & R)]])
+      |[(Hq & ts & Hts & Hne & [(A & R)|(A & n & Hn & F1 & F2 & R)])
+       |(Hq & Hfn & R)]]; try congruence;
+    rewrite (perr_cons_ok _ _ _ _ _ _ _ R); apply IH;
+    try (apply share_inv; auto; now apply Bij_snoc); apply share_flags; auto.
+Qed.
+
+Theorem pkg_both_flags_accept pre res calls :
+  exists sf ms, add_pkg (pinit pre res true true) calls = POk sf ms.
+Proof.
+  pose proof (pboth_gen calls _ (pinit_inv pre res true true) (pinit_flags pre res true true)) as H.
+  destruct (add_pkg _ calls) as [sf ms|]; [now exists sf, ms|discriminate].
+Qed.
+
+(* soundness on success, for the whole package: every plugin's table stays a bijection, every
+   call's final name is bound in ITS plugin's table to exactly its types, and no name in any
+   table is one of the originally reserved names unless the user spelled it in a derive call *)
+Lemma psound_gen : forall calls (st sf : nat -> tm) ms res,
+  PInv st -> (forall p, incl res (reserved (st p))) ->
+  add_pkg st calls = POk sf ms ->
+  PInv sf /\ List.length ms = List.length calls /\
+  (forall p, incl (tbl (st p)) (tbl (sf p))) /\
+  (forall c m, In (c, m) (combine calls ms) -> In (m, snd (snd c)) (tbl (sf (fst c)))) /\
+  (forall p m, In m (map fst (tbl (sf p))) ->
+     In m (map fst (tbl (st p))) \/ In m (map fst (proj p calls)) \/ ~ In m res).
+Proof.
+  induction calls as [|[p0 [fn q]] r IH]; intros st sf ms res I RS H.
+  - cbn in H. inversion H; subst. split; [exact I|]. split; [reflexivity|].
+    split; [intro; apply incl_refl|]. split; [intros c m []|]. intros p m Hm. now left.
+  - cbn [TypesMap.add_pkg] in H.
+    destruct (set_cases tys tys_eqb tys_eqb_spec hint order order_perm (st p0) fn q) as
+      [(f & Hf & [(E & R)|[(Ne & D & R)|(Ne & D & R)]])
+      |[(Hq & ts & Hts & Hne & [(A & R)|(A & n & Hn & F1 & F2 & R)])
+       |(Hq & Hfn & R)]];
+    rewrite R in H; try discriminate;
+    match type of H with context [add_pkg ?st' r] =>
+      pose proof (IH st') as IH'; destruct (add_pkg st' r) as [sf' ms'|j e]; [|discriminate] end;
+    inversion H; subst; clear H.
+    1,2: (* table unchanged *)
+      assert (I1 : PInv (share st p0 (st p0))) by (apply share_inv; auto);
+      assert (RS1 : forall p, incl res (reserved (share st p0 (st p0) p)))
+        by (intro p; destruct (Nat.eq_dec p p0) as [->|N];
+            [rewrite share_same; apply RS|rewrite (share_other _ _ _ _ N); apply RS]);
+      destruct (IH' sf ms' res I1 RS1 eq_refl) as (I' & L & Inc & C & Fr);
+      assert (Inc' : forall p, incl (tbl (st p)) (tbl (sf p)))
+        by (intro p; specialize (Inc p); destruct (Nat.eq_dec p p0) as [->|N];
+            [now rewrite share_same in Inc|now rewrite (share_other _ _ _ _ N) in Inc]);
+      (split; [exact I'|]); (split; [cbn; now rewrite L|]); (split; [exact Inc'|]); split;
+      [intros c m [Hc|Hc]; [inversion Hc; subst; cbn; now apply Inc'|now apply C]
+      |intros p m Hm; specialize (Fr p m Hm); destruct (Nat.eq_dec p p0) as [->|N];
+        [rewrite share_same, proj_cons_same in *; destruct Fr as [?|[?|?]]; auto; right; left; now right
+        |rewrite (share_other _ _ _ _ N) in Fr; rewrite (proj_cons_other _ _ _ _ _ (not_eq_sym N)); exact Fr]].
+    + (* a registration under the fresh name n *)
+      assert (I1 : PInv (share st p0 (insert (st p0) n q)))
+        by (apply share_inv; auto; now apply Bij_snoc).
+      assert (RS1 : forall p, incl res (reserved (share st p0 (insert (st p0) n q) p))).
+      { intros p x Hx. destruct (Nat.eq_dec p p0) as [->|N].
+        - rewrite share_same. right. now apply (RS p0).
+        - rewrite (share_other _ _ _ _ N). right. now apply (RS p0). }
+      destruct (IH' sf ms' res I1 RS1 eq_refl) as (I' & L & Inc & C & Fr).
+      assert (Inc' : forall p, incl (tbl (st p)) (tbl (sf p))).
+      { intros p x Hx. specialize (Inc p). destruct (Nat.eq_dec p p0) as [->|N].
+        - rewrite share_same, tbl_insert in Inc. apply Inc, in_app_iff. now left.
+        - rewrite (share_other _ _ _ _ N) in Inc. now apply Inc. }
+      split; [exact I'|]. split; [cbn; now rewrite L|]. split; [exact Inc'|]. split.
+      * intros c m [Hc|Hc]; [|now apply C]. inversion Hc; subst; cbn.
+        specialize (Inc p0). rewrite share_same, tbl_insert in Inc. apply Inc, in_app_iff. right; now left.
+      * intros p m Hm. specialize (Fr p m Hm). destruct (Nat.eq_dec p p0) as [->|N].
+        -- rewrite share_same, tbl_insert, map_app, in_app_iff in Fr. rewrite proj_cons_same.
+           destruct Fr as [[?|[<-|[]]]|[?|?]]; auto.
+           ++ right; right. intro X. apply F2. now apply (RS p0).
+           ++ right; left; now right.
+        -- rewrite (share_other _ _ _ _ N) in Fr. rewrite (proj_cons_other _ _ _ _ _ (not_eq_sym N)). exact Fr.
+    + (* a registration under the call's own name *)
+      assert (I1 : PInv (share st p0 (insert (st p0) fn q)))
+        by (apply share_inv; auto; now apply Bij_snoc).
+      assert (RS1 : forall p, incl res (reserved (share st p0 (insert (st p0) fn q) p))).
+      { intros p x Hx. destruct (Nat.eq_dec p p0) as [->|N].
+        - rewrite share_same. right. now apply (RS p0).
+        - rewrite (share_other _ _ _ _ N). right. now apply (RS p0). }
+      destruct (IH' sf ms' res I1 RS1 eq_refl) as (I' & L & Inc & C & Fr).
+      assert (Inc' : forall p, incl (tbl (st p)) (tbl (sf p))).
+      { intros p x Hx. specialize (Inc p). destruct (Nat.eq_dec p p0) as [->|N].
+        - rewrite share_same, tbl_insert in Inc. apply Inc, in_app_iff. now left.
+        - rewrite (share_other _ _ _ _ N) in Inc. now apply Inc. }
+      split; [exact I'|]. split; [cbn; now rewrite L|]. split; [exact Inc'|]. split.
+      * intros c m [Hc|Hc]; [|now apply C]. inversion Hc; subst; cbn.
+        specialize (Inc p0). rewrite share_same, tbl_insert in Inc. apply Inc, in_app_iff. right; now left.
+      * intros p m Hm. specialize (Fr p m Hm). destruct (Nat.eq_dec p p0) as [->|N].
+        -- rewrite share_same, tbl_insert, map_app, in_app_iff in Fr. rewrite proj_cons_same.
+           destruct Fr as [[?|[<-|[]]]|[?|?]]; auto.
+           ++ right; left; now left.
+           ++ right; left; now right.
+        -- rewrite (share_other _ _ _ _ N) in Fr. rewrite (proj_cons_other _ _ _ _ _ (not_eq_sym N)). exact Fr.
+Qed.
+
+Theorem pkg_rename_sound pre res (a d : bool) calls sf ms :
+  add_pkg (pinit pre res a d) calls = POk sf ms ->
+  (forall p, Bij (tbl (sf p))) /\ List.length ms = List.length calls /\
+  (forall c m, In (c, m) (combine calls ms) -> lookup (tbl (sf (fst c))) m = Some (snd (snd c))) /\
+  ((forall c, In c calls -> ~ In (fst (snd c)) res) ->
+   forall p m, In m (map fst (tbl (sf p))) -> ~ In m res).
+Proof.
+  intro H.
+  destruct (psound_gen calls _ _ _ res (pinit_inv pre res a d) (fun p => incl_refl _) H)
+    as (I & L & _ & C & Fr).
+  split; [exact I|]. split; [exact L|]. split.
+  - intros c m Hc. specialize (C c m Hc).
+    destruct (lookup (tbl (sf (fst c))) m) as [ts|] eqn:E.
+    + apply (lookup_Some tys) in E. f_equal. destruct (I (fst c)) as [B1 _]. eapply nodup_fst_fun; eauto.
+    + apply (lookup_None tys) in E. destruct E. apply in_map_iff. now exists (m, snd (snd c)).
+  - intros G p m Hm. destruct (Fr p m Hm) as [[]|[Hc|Hn]]; [|exact Hn].
+    unfold proj in Hc. rewrite map_map in Hc. apply in_map_iff in Hc.
+    destruct Hc as [c [<- Hc]]. apply filter_In in Hc. now apply G.
+Qed.
+
+(* the recursion budget of the model is never exhausted *)
+Lemma pno_fuel_gen : forall calls (st : nat -> tm) i, PInv st -> add_pkg st calls <> PErr i SFuel.
+Proof.
+  induction calls as [|[p0 [fn q]] r IH]; intros st i I; [discriminate|].
+  cbn [TypesMap.add_pkg].
+  destruct (set_cases tys tys_eqb tys_eqb_spec hint order order_perm (st p0) fn q) as
+      [(f & Hf & [(E & R)|[(Ne & D & R)|(Ne & D & R)]])
+      |[(Hq & ts & Hts & Hne & [(A & R)|(A & n & Hn & F1 & F2 & R)])
+       |(Hq & Hfn & R)]]; rewrite R; try discriminate;
+    match goal with |- context [add_pkg ?st' r] =>
+      pose proof (IH st') as IH'; destruct (add_pkg st' r) as [sf ms|j e]; [discriminate|] end;
+    intro H; inversion H; subst; eapply IH'; eauto; apply share_inv; auto; now apply Bij_snoc.
+Qed.
+
+Theorem pkg_no_fuel pre res (a d : bool) calls i :
+  add_pkg (pinit pre res a d) calls <> PErr i SFuel.
+Proof. apply pno_fuel_gen, pinit_inv. Qed.
 
 End Pkg.
